@@ -609,6 +609,69 @@ PROPS["C13"] = dict(
     level_note="Trusted: Kani/CBMC; tokio contract model; FIFO model processors.",
 )
 
+# ------------------------------------------------------------------------------------------------
+# unit "hs": S2 mount of p2panda-sync topic_handshake.rs + traits.rs
+# ------------------------------------------------------------------------------------------------
+_HS = "p2panda-sync/src/protocols/topic_handshake.rs"
+UNITS["hs"] = dict(
+    name="hs",
+    stage=[("repo",), ("crate", "harness/hs"), ("lock",), SYM,
+           ("mount", "p2panda-sync/src/traits.rs", "src/staged/traits.rs", [INNER_DOCS]),
+           ("mount", _HS, "src/staged/topic_handshake.rs", [INNER_DOCS])],
+    repo_paths=["src/staged/"],
+    functions=[(_HS, "TopicHandshakeInitiator::run", r"async fn run\("),
+               (_HS, "TopicHandshakeAcceptor::run", r"async fn run\(", r"impl<T, Evt> Protocol for TopicHandshakeAcceptor")],
+    harnesses=[
+        dict(name="c25::acceptor_outputs_initiators_topic_or_errs", prop="C25", timeout=300, encodes="TopicHandshakeAcceptor::run",
+             bounds="every inbound transcript of 3 items, each Topic(t) | Done | transport error | end of stream, all topic values (u8)"),
+        dict(name="c25::initiator_completes_or_errs", prop="C25", timeout=300, encodes="TopicHandshakeInitiator::run", bounds="every inbound transcript of 2 items, all topic values"),
+        dict(name="c25::both_sides_agree_on_the_topic", prop="C25", timeout=300, encodes="TopicHandshakeInitiator::run then TopicHandshakeAcceptor::run on the recorded transcript", bounds="all topic values"),
+        dict(name="c25::failing_sink_is_an_error", prop="C25", timeout=300, encodes="both run functions with a sink failing at the first or second send", bounds="failure position and side symbolic"),
+    ],
+)
+PROPS["C25"] = dict(
+    units=["hs"],
+    trusted_base=["Kani 0.68 / CBMC 6.11 / cadical", "model: futures_channel::mpsc::Sender (event reporting) replaced by an always-ready recording sink",
+                  "model: transport = scripted Stream (inbound transcript) and recording Sink; real futures_util::{SinkExt, StreamExt}",
+                  "stub: std::fmt::format returns an empty string (error messages are not the subject)"],
+    assumptions=["topic type u8", "the transport never returns Pending (hanging on a silent peer is the transport's timeout, not the handshake's)"],
+    bounds="all transcripts of <= 3 inbound items over {Topic(t), Done, error, end}; sink failure at the first or second send",
+    outside="the two sides running concurrently over a real transport; event channel back-pressure",
+    level_text=("Bounded model checking of both real handshake run() functions against EVERY truncation/substitution of the inbound transcript: the acceptor's output, if any, is exactly the initiator's topic; honest "
+                "transcripts complete on both sides; everything else ends in an error within the poll, never a hang or a wrong topic."),
+    level_note="Trusted: Kani/CBMC; scripted transport; event channel model.",
+)
+
+# ------------------------------------------------------------------------------------------------
+# unit "codec": S2 mount of p2panda-net/src/codec.rs against the real BytesMut / postcard
+# ------------------------------------------------------------------------------------------------
+_CO = "p2panda-net/src/codec.rs"
+UNITS["codec"] = dict(
+    name="codec",
+    stage=[("repo",), ("crate", "harness/codec"), ("lock",), SYM, ("mount", _CO, "src/staged/codec.rs", [INNER_DOCS, STRIP_TESTS])],
+    repo_paths=["src/staged/"],
+    mem_gb=24,
+    functions=[(_CO, "Codec::encode", r"fn encode\(&mut self, item: M"), (_CO, "Codec::decode", r"fn decode\(&mut self, src: &mut BytesMut\)")],
+    harnesses=[
+        dict(name="c26::one_frame_every_split_point", prop="C26", timeout=600, encodes="Codec::{encode, decode} with the real BytesMut and postcard",
+             bounds="one [u8;2] message (all payload values), byte stream split into two chunks at every position 0..=6"),
+        dict(name="c26::encode_limit_is_exact", prop="C26", timeout=600, encodes="Codec::encode", bounds="max_frame_len in 0..=5 against a 2-byte frame, all payload values"),
+        dict(name="c26::decode_limit_is_exact", prop="C26", timeout=600, encodes="Codec::decode", bounds="any announced u32 length, any u32 maximum, 2 payload bytes present"),
+        dict(name="c26::two_frames_in_order_every_split_point", prop="C26", tier="thorough", timeout=2400, encodes="Codec::{encode, decode}",
+             bounds="two [u8;2] messages, chunk boundary at every position 0..=12"),
+    ],
+)
+PROPS["C26"] = dict(
+    units=["codec"],
+    trusted_base=["Kani 0.68 / CBMC 6.11 / cadical", "no models: real tokio_util::bytes::BytesMut, tokio_util::codec traits and postcard are executed symbolically"],
+    assumptions=["fixed-size messages ([u8; 2]) so that frame lengths are concrete (postcard varints would make lengths symbolic)", "at most two chunks per stream"],
+    bounds="one frame x 7 split points (quick), two frames x 13 split points (thorough); all payload values; limits: every announced u32 length against every u32 maximum",
+    outside="variable-length messages (operations, sync messages), FramedRead/FramedWrite and the I/O layer, more than two chunks",
+    level_text=("Bounded model checking of the real Codec::encode/decode over the real BytesMut and postcard: for every split point the decoder yields nothing until the frame is complete, then exactly the encoded message, "
+                "consuming exactly the frame; and the size limit rejects exactly the frames above the maximum on both sides, for every 32-bit announced length. PARTIAL: fixed-size messages only."),
+    level_note="Trusted: Kani/CBMC only; fixed-size message bound.",
+)
+
 PROPS["C18"].update(
     level_text=("Bounded model checking of the real HybridTimestamp::increment: the solver decides the strict-increase "
                 "assertion for every 64-bit (timestamp, lamport, wall-clock) triple and for chains of two increments with "
